@@ -809,8 +809,9 @@ impl Matcher for MouseEventMatcher {
         // "\x1b[<{event};{row};{col}(m|M)"
         let mut nums = numbers_decode(&data[3..data.len() - 1], b';');
         let event = nums.next()?;
-        let col = nums.next()? - 1;
-        let row = nums.next()? - 1;
+        // coordinates are 1-based, zero is not a valid coordinate
+        let col = nums.next()?.checked_sub(1)?;
+        let row = nums.next()?.checked_sub(1)?;
 
         let mut mode = KeyMod::from_bits(((event >> 2) & 7) as u32);
         if data[data.len() - 1] == b'M' {
@@ -949,8 +950,9 @@ impl Matcher for CursorPositionMatcher {
         // "\x1b[{row};{col}R"
         let mut nums = numbers_decode(&data[2..data.len() - 1], b';');
         Some(TerminalEvent::CursorPosition(Position {
-            row: nums.next()? - 1,
-            col: nums.next()? - 1,
+            // coordinates are 1-based, zero is not a valid coordinate
+            row: nums.next()?.checked_sub(1)?,
+            col: nums.next()?.checked_sub(1)?,
         }))
     }
 }
